@@ -195,6 +195,15 @@ def run(tier, seed):
             pels.append(apel.gen_pel(rng, max_sections=rng.choice([6, 12, 40])))
         if thorough:
             pels.append(apel.gen_pel(rng, max_sections=253))
+        # designed: a log file larger than 16 / 64 KiB (one large section in the middle), always taken through the command-line routes
+        bigs = set()
+        for size in (20000, 60000):
+            p = apel.gen_pel(rng, max_sections=3)
+            p['sections'].insert(len(p['sections']) // 2, {'kind': 'other', 'hdr': apel.gen_hdr(rng), 'id': 0x5A5A, 'payload': bytes(rng.randrange(256) for _ in range(size))})
+            p['sections'].append(apel.gen_section(rng))
+            apel.fix_real_plugins(p)
+            pels.append(p)
+            bigs.add(id(p))
         reqs = [env.tokens()] + ['pelspec %s %s x' % (apel.tok_cfg(), apel.tok_pel(p)) for p in pels]
         replies = lean_batch(reqs)[1:]
         pairs = set()
@@ -211,7 +220,7 @@ def run(tier, seed):
             ck.count('sections=%s' % ('0' if not kinds else '1-5' if len(kinds) <= 5 else '6+'))
             for k in set(kinds):
                 ck.count('kind ' + k)
-            compare(ck, p, data, real, model, spec, fixture_free=True)
+            compare(ck, p, data, real, model, spec, fixture_free=True, extra={'force_routes': id(p) in bigs})
         ck.dist['adjacent kind pairs covered'] = len(pairs)
     finally:
         env.uninstall()
